@@ -52,6 +52,9 @@ func (fv *FuncVC) doCall(in ssa.Instruction, c *ssa.CallCommon, args []*Val, clo
 	if b, ok := c.Value.(*ssa.Builtin); ok {
 		return fv.builtin(b, c, args, resT, pos)
 	}
+	if _, isGo := in.(*ssa.Go); !isGo {
+		fv.guardDeepCall(c, pos)
+	}
 	keys := calleeKeys(c)
 	var callee *ssa.Function
 	var binds []*Val
@@ -235,6 +238,12 @@ func (fv *FuncVC) applyContract(con *Contract, callee *ssa.Function, c *ssa.Call
 			label = fmt.Sprintf("%d", i+1)
 		}
 		props := fv.propsFor(r)
+		if gp := fv.g.guardProps(); len(gp) > 0 && heldLockRe.MatchString(r.Src) && !fv.inGo {
+			// a lock the callee relies on its caller for: part of the guarded_by pass, claimed in every caller
+			// (partial or not) - guarded.go
+			fv.oblige("guarded", fmt.Sprintf("held-at-call#%s#%d#%s", key, ord, label), gp, t.T,
+				"the callee is entered with a lock held: "+r.Src, fv.posStr(pos))
+		}
 		ob := fv.oblige("call-pre", fmt.Sprintf("%s#%d#%s", key, ord, label), props, t.T, r.Src, fv.posStr(pos))
 		if partialCaller {
 			// partial caller: the precondition is not taken for granted afterwards; the callee's
